@@ -188,7 +188,8 @@ class Gen:
         if alt.ref == "projection.json" or k == "projection":
             if sh == "enum":
                 return [["proj", ch.choice(["AUTO", "auto", "Auto"])]]
-            return [["proj", [self.string(multiline=False)[0] for _ in range(ch.int(1, 3))] if ch.chance(1, 2) else list(ch.choice(PROJ))]]
+            pool = [x for x in PROJ if not any(c in y for y in x for c in p.forbid)]
+            return [["proj", [self.string(multiline=False)[0] for _ in range(ch.int(1, 3))] if ch.chance(1, 2) else list(ch.choice(pool))]]
         if sh == "points":
             if k == "pattern":
                 return [["pairs", "pattern", self.pairs(1, 3, positive=True)]]
